@@ -34,9 +34,12 @@ structure DState where
   s : State := {}
   unres : List String := []
   timer : Bool := false      -- `reset timer=1`: the case runs with the 1 s timer of `PlayerMgr.Start`
+  extra : List Nat := []     -- the accounts beyond `uids` addressed so far by `crowd` (counted in np / nt, not printed)
   unanswered : Nat → List (Nat × Nat) := fun _ => []
 
 def DState.un (d : DState) (k : String) : Bool := d.unres.contains k
+
+def DState.all (d : DState) : List Nat := uids ++ d.extra
 
 def showAcct (d : DState) (a : Acct) : String :=
   if !d.un "P" && !d.un "T" && a.player.isNone && a.task.isNone && a.pend.isEmpty then " -"
@@ -59,8 +62,8 @@ def showAcct (d : DState) (a : Acct) : String :=
 def snapshot (d : DState) : String :=
   let s := d.s
   let accts := String.join (uids.map fun u => " |" ++ showAcct d (s.accts u))
-  let np := (uids.filter fun u => (s.accts u).player.isSome).length
-  let nt := (uids.filter fun u => (s.accts u).task.isSome).length
+  let np := (d.all.filter fun u => (s.accts u).player.isSome).length
+  let nt := (d.all.filter fun u => (s.accts u).task.isSome).length
   let nc := if d.un "N" then "?" else toString s.nextCheck
   let np := if d.un "P" then "?" else toString np
   let nt := if d.un "T" then "?" else toString nt
@@ -85,18 +88,29 @@ def showOut (op : Op) (u : Nat) (o : Out) : String :=
   s!"ret={ret} acks={",".intercalate acks} kicks={",".intercalate kicks} offs={",".intercalate offs}"
 
 /-- the accounts whose parked login the next expiry scan would remove -/
-def expiredNow (s : State) : List Nat :=
+def expiredNow (d : DState) : List Nat :=
+  let s := d.s
   if s.now < s.nextCheck then []
-  else uids.filter fun u => match (s.accts u).task with
+  else d.all.filter fun u => match (s.accts u).task with
     | some t => t.expired s.now
     | none => false
 
 inductive Parsed
   | op (o : Op)
   | reset (unres : List String) (timer : Bool)
+  | crowd (b n : Nat)
   | bad
 
 def validUid (u : Nat) : Bool := 1 ≤ u && u ≤ nAccts
+
+/-- `crowd b=B n=N`: the accounts `crowdBase+B+1 .. crowdBase+B+N`, each going through the double-device
+sequence: login on front-end 1, logined, a second login from front-end 2 asking for the kick -/
+def crowdBase : Nat := 1000
+def crowdMax : Nat := 4096
+
+def crowdOps (b i : Nat) : List Op :=
+  let u := crowdBase + b + i
+  [.login u 1 (2 * i - 1) false, .logined u true none, .login u 2 (2 * i) true]
 
 def parseOp (ws : List String) (pick : Option Nat) : Parsed :=
   match ws.head? with
@@ -104,6 +118,12 @@ def parseOp (ws : List String) (pick : Option Nat) : Parsed :=
       | some u => (u.splitOn ",").filter (· ≠ "")
       | none => []) (kvNat ws "timer" == some 1)
   | some "tick" => .op .tick
+  | some "crowd" =>
+    match kvNat ws "n" with
+    | some n =>
+      let b := (kvNat ws "b").getD 0
+      if 1 ≤ n && n ≤ crowdMax && b ≤ crowdMax then .crowd b n else .bad
+    | none => .bad
   | some "adv" => match kvNat ws "ms" with
     | some ms => .op (.adv ms)
     | none => .bad
@@ -145,29 +165,86 @@ def tooOld (s : State) (ms : Nat) : Bool :=
 have expired).  Two of them when a scan may run: the Go map order decides which parked login is dropped;
 such operations are not driven (the harness applies the same rule, from the observable history only). -/
 def staleUnanswered (d : DState) : Nat :=
-  (uids.filter fun u => (d.unanswered u).any fun e => decide (d.s.now > e.2 + 30000)).length
+  (d.all.filter fun u => (d.unanswered u).any fun e => decide (d.s.now > e.2 + 30000)).length
 
 def ackedIds (o : Out) : List Nat :=
   o.evs.filterMap fun e => match e with | .ack id _ _ => some id | _ => none
 
 /-- bookkeeping of unanswered login requests after a step on account `u` -/
-def track (d : DState) (o : Op) (before : State) (out : Out) : Nat → List (Nat × Nat) :=
+def trackList (d : DState) (o : Op) (before : State) (out : Out) (u : Nat) : List (Nat × Nat) :=
+  let cur := d.unanswered u
+  let cur := match o with
+    | .login .. => cur ++ [((before.accts u).nextId + 1, before.now)]
+    | _ => cur
+  let acked := ackedIds out
+  cur.filter fun e => !acked.contains e.1
+
+/-- (the new list is computed before it is stored: a stored partial application would recompute the whole
+history at every lookup) -/
+def track (d : DState) (o : Op) (before : State) (out : Out) : DState :=
   match o.uid with
-  | none => d.unanswered
+  | none => d
   | some u =>
-    let cur := d.unanswered u
-    let cur := match o with
-      | .login .. => cur ++ [((before.accts u).nextId + 1, before.now)]
-      | _ => cur
-    let acked := ackedIds out
-    upd d.unanswered u (cur.filter fun e => !acked.contains e.1)
+    let l := trackList d o before out u
+    { d with unanswered := upd d.unanswered u l }
+
+/-- summary of a `crowd` operation: fresh authorisations, other login answers, notifications acknowledged,
+kick requests (to a front-end of the directory), offline requests -/
+structure Tally where
+  ok : Nat := 0
+  oth : Nat := 0
+  noti : Nat := 0
+  kicks : Nat := 0
+  offs : Nat := 0
+
+def Tally.add (t : Tally) (o : Op) (out : Out) : Tally :=
+  let acks := out.evs.filter fun e => match e with | .ack .. => true | _ => false
+  let oks := out.evs.filter fun e => match e with | .ack _ _ .ok => true | _ => false
+  let kicks := out.evs.filter fun e => match e with | .kick f _ => f == 1 || f == 2 | _ => false
+  let offs := out.evs.filter fun e => match e with | .off => true | _ => false
+  let noti := match o with
+    | .logined .. => if (Remote.reply o out).render o == "-" then 1 else 0
+    | _ => 0
+  { ok := t.ok + oks.length, oth := t.oth + (acks.length - oks.length), noti := t.noti + noti,
+    kicks := t.kicks + kicks.length, offs := t.offs + offs.length }
+
+def crowdStep (dt : DState × Tally) (o : Op) : DState × Tally :=
+  let d := dt.1
+  let r := Cell2v.Center.step d.s o
+  ({ track d o d.s r.2 with s := r.1 }, dt.2.add o r.2)
+
+/-- the values of `f` on `us` laid out in an array indexed by account id (`dflt` elsewhere) -/
+def tabulate {α : Type} (dflt : α) (f : Nat → α) (us : List Nat) : Array α :=
+  us.foldl (fun a u => a.set! u (f u)) (Array.replicate (us.foldl max 0 + 1) dflt)
+
+def lookupTab {α : Type} (arr : Array α) (dflt : α) (x : Nat) : α := arr.getD x dflt
+
+/-- the state functions are chains of point updates, one link per operation; after a crowd they are re-tabulated
+(the accounts never addressed hold the initial value), so that the operations that follow stay cheap -/
+def compact (d : DState) : DState :=
+  let accts := tabulate {} d.s.accts d.all
+  let un := tabulate [] d.unanswered d.all
+  { d with s := { d.s with accts := lookupTab accts {} }, unanswered := lookupTab un [] }
+
+def crowdRun (d : DState) (b n : Nat) : DState × Tally :=
+  let r := (List.range n).foldl (fun dt i =>
+    let u := crowdBase + b + (i + 1)
+    let d := dt.1
+    let d := if d.extra.contains u then d else { d with extra := u :: d.extra }
+    let r := (crowdOps b (i + 1)).foldl crowdStep (d, dt.2)
+    if (i + 1) % 64 == 0 then (compact r.1, r.2) else r) (d, {})
+  (compact r.1, r.2)
 
 def step (d : DState) (line : String) : DState × String :=
   let ws := words line
   let s := d.s
-  let ex := expiredNow s
+  let ex := expiredNow d
   match parseOp ws ex.head? with
   | .bad => (d, "bad-op")
+  | .crowd b n =>
+    let r := crowdRun d b n
+    let t := r.2
+    (r.1, s!"ret=- crowd={n} ok={t.ok} oth={t.oth} noti={t.noti} kicks={t.kicks} offs={t.offs}" ++ snapshot r.1)
   | .reset un tm =>
     let d' : DState := { unres := un, timer := tm }
     (d', "ok" ++ snapshot d')
@@ -186,11 +263,11 @@ def step (d : DState) (line : String) : DState × String :=
       if (s.accts u).pend.isEmpty then (d, "none")
       else
         let r := Cell2v.Center.step s o
-        let d' := { d with s := r.1, unanswered := track d o s r.2 }
+        let d' := { track d o s r.2 with s := r.1 }
         (d', showOut o u r.2 ++ snapshot d')
     | _ =>
       let r := Cell2v.Center.step s o
-      let d' := { d with s := r.1, unanswered := track d o s r.2 }
+      let d' := { track d o s r.2 with s := r.1 }
       (d', showOut o (o.uid.getD 0) r.2 ++ snapshot d')
 
 /-! ### spec mode -/
@@ -231,6 +308,27 @@ def specLine (m : Spec.Mon) (line : String) : Spec.Mon × String :=
     else match parseOp ws none with
     | .bad => (m, "ok")
     | .reset _ _ => ({}, "ok")
+    | .crowd b n =>
+      -- the summary of N double-device sequences on other accounts: every notification acknowledged; when the
+      -- centre had nothing on these accounts, each first login is a fresh authorisation (exactly one per account)
+      if !obs.startsWith "ret=" then (m, "ok") else
+      let ows := words ((obs.splitOn " |").headD "")
+      let us := (List.range n).map fun i => crowdBase + b + (i + 1)
+      let fresh := us.all fun u => (m.led u).entry == .none
+      let ok := (kvNat ows "ok").getD 0
+      if kvNat ows "noti" != some n then
+        (m, s!"VIOLATION C18/request-answer at t={m.now} {opl} got {(obs.splitOn " |").headD ""}")
+      else if fresh && ok < n then
+        (m, s!"VIOLATION C18/refused-without-holder at t={m.now} {opl} got {(obs.splitOn " |").headD ""}")
+      else if fresh && ok > n then
+        (m, s!"VIOLATION C18/double-load at t={m.now} {opl} got {(obs.splitOn " |").headD ""}")
+      else if !fresh then (m, "ok")
+      else
+        let m' := (List.range n).foldl (fun m i =>
+          let u := crowdBase + b + (i + 1)
+          let m1 := (Spec.monStep m ⟨.login u 1 (2 * (i + 1) - 1) false, { evs := [.ack 1 (2 * (i + 1) - 1) .ok] }⟩).1
+          (Spec.monStep m1 ⟨.logined u true none, {}⟩).1) m
+        (m', "ok")
     | .op o =>
       if !obs.startsWith "ret=" then (m, "ok")   -- refused / nondet / none: nothing happened
       else
